@@ -321,12 +321,40 @@ def run(ck: Check, prog: Program) -> None:
     whybe = 'no `return cls(error=...)`'
     for n, al in err_alts:
         conj = set()
+        def member_read(c_expr, subject: str) -> Set[str]:
+            """the member name(s) of the document the tested variable was read from (`data.get('id')`, `data['id']`)"""
+            out_: Set[str] = set()
+            nodes_ = fcfg.nodes_of(c_expr)
+            if not nodes_:
+                return out_
+            try:
+                sub_e = ast.parse(subject, mode='eval').body
+            except SyntaxError:
+                return out_
+            for a2 in ffl.alts(nodes_[0], sub_e):
+                v2 = a2.expr
+                if isinstance(v2, ast.Call) and isinstance(v2.func, ast.Attribute) and v2.func.attr == 'get' and v2.args and \
+                        isinstance(v2.args[0], ast.Constant):
+                    out_.add(str(v2.args[0].value))
+                elif isinstance(v2, ast.Subscript) and isinstance(v2.slice, ast.Constant):
+                    out_.add(str(v2.slice.value))
+                else:
+                    out_.add('?' + norm(v2)[:30])
+            return out_
         for c_, pol in al.guards:
             ckd = classify_cond(prog, bfj, c_)
             if ckd.kind == 'is-none' and pol != ckd.negated and ckd.subject and 'error' not in ckd.subject.lower():
-                conj.add('id-none')
+                rd = member_read(c_, ckd.subject)
+                if rd <= {'id'} or any(r.startswith('?') for r in rd):
+                    conj.add('id-none')
+                else:
+                    conj.add(f'member {sorted(rd)[0]!r} is null (not the id)')
             if ckd.kind == 'is-unset' and pol == ckd.negated:
-                conj.add('error-set')
+                rd = member_read(c_, ckd.subject) if ckd.subject else set()
+                if rd <= {'error'} or any(r.startswith('?') for r in rd):
+                    conj.add('error-set')
+                else:
+                    conj.add(f'member {sorted(rd)[0]!r} is present (not the error)')
             if ckd.kind == 'isinstance' and 'dict' in ckd.detail and pol != ckd.negated:
                 conj.add('object')
         if not {'id-none', 'error-set', 'object'} <= conj:
